@@ -25,10 +25,30 @@ enum Fate {
 }
 
 fn talk_requests(rng: &mut Rng, n: usize) -> Vec<(NodeAddress, Vec<u8>, Vec<u8>)> {
+    talk_requests_known(rng, n).0
+}
+
+/// ... and the records of those requesters that are routing-table entries of the node under test:
+/// such a record may name another socket than the one the request comes from (a peer behind NAT,
+/// a changed port, a stale record).
+fn talk_requests_known(rng: &mut Rng, n: usize) -> (Vec<(NodeAddress, Vec<u8>, Vec<u8>)>, Vec<discv5::Enr>) {
+    use crate::peer::peersim::{build_enr, signing_key, EnrAddr};
     let nsrc = 1 + rng.usize(6);
+    let mut known = Vec::new();
     let sources: Vec<NodeAddress> = (0..nsrc)
         .map(|i| {
-            let id: [u8; 32] = rng.array();
+            let mut id: [u8; 32] = rng.array();
+            if i % 4 < 2 && rng.bool() {
+                let sk = signing_key(rng);
+                let advertised = match rng.below(3) {
+                    0 => v4(10, 5, 0, i as u8 + 1, 4000 + i as u16),
+                    1 => v4(10, 5, 0, i as u8 + 1, 31000 + i as u16),
+                    _ => v4(10, 6, 6, i as u8 + 1, 4000 + i as u16),
+                };
+                let e = build_enr(&sk, 1 + rng.below(3), EnrAddr::Socket(advertised), None);
+                id = e.node_id().raw();
+                known.push(e);
+            }
             // plain IPv4, IPv6, and IPv4-mapped IPv6 (an IPv4 peer seen through a dual-stack socket)
             let addr = match i % 4 {
                 2 => v6(i as u16 + 1, 4000 + i as u16),
@@ -38,7 +58,7 @@ fn talk_requests(rng: &mut Rng, n: usize) -> Vec<(NodeAddress, Vec<u8>, Vec<u8>)
             NodeAddress::new(addr, NodeId::new(&id))
         })
         .collect();
-    (0..n)
+    let reqs = (0..n)
         .map(|k| {
             let src = rng.pick(&sources).clone();
             // unique ids of varying length (0..8 bytes would collide: keep 2..8 with a counter)
@@ -54,7 +74,8 @@ fn talk_requests(rng: &mut Rng, n: usize) -> Vec<(NodeAddress, Vec<u8>, Vec<u8>)
             };
             (src, id, body)
         })
-        .collect()
+        .collect();
+    (reqs, known)
 }
 
 fn judge(
@@ -143,7 +164,12 @@ pub fn scenario(seed: u64, rep: &mut Report) {
             1 => 100 + rng.usize(60), // more than the event channel holds
             _ => 1 + rng.usize(64),
         };
-        let emitted = talk_requests(&mut rng, n);
+        let (emitted, known) = talk_requests_known(&mut rng, n);
+        for e in &known {
+            if rig.discv5.add_enr(e.clone()).is_ok() {
+                rep.count("requesters_in_routing_table");
+            }
+        }
         let mut fates: HashMap<Vec<u8>, Fate> = HashMap::new();
         let mut held: Vec<TalkRequest> = Vec::new();
         let mut across: Vec<(TalkRequest, bool)> = Vec::new();
@@ -191,7 +217,23 @@ pub fn scenario(seed: u64, rep: &mut Report) {
                             rep.count("dropped_after_requester_was_banned");
                         }
                         fates.insert(id, Fate::Drop);
-                        drop(req);
+                        // the ways an application lets go of a request: it simply drops it, drops
+                        // it on another thread, or its handler dies (panics) while holding it
+                        match rng.below(4) {
+                            0 => {
+                                let _ = std::thread::spawn(move || drop(req)).join();
+                                rep.count("dropped_on_another_thread");
+                            }
+                            1 => {
+                                let _ = std::thread::spawn(move || {
+                                    let _held = req;
+                                    std::panic::resume_unwind(Box::new("application handler failed"));
+                                })
+                                .join();
+                                rep.count("dropped_by_a_panicking_handler");
+                            }
+                            _ => drop(req),
+                        }
                     }
                     _ => {
                         let respond_later = rng.bool();
